@@ -242,3 +242,28 @@ Print Assumptions C16_ext_unbounded_range.
 Theorem C16_ext_nonvacuous : ext_nonvacuous_stmt.
 Proof. exact ext_nonvacuous. Qed.
 Print Assumptions C16_ext_nonvacuous.
+
+(* Total forms: with the explicit fuel formulas of Model/FilterExt.v (xhull_fuel: every RDATE and every candidate of a
+   bounded rule; xmatch_fuel / unbounded rules: every RDATE and the rule candidates up to the first one beyond the finite
+   bound of the range and beyond every EXDATE / RECURRENCE-ID, + 2) the model terminates, for ALL well-formed objects
+   and ALL ranges with a bound. *)
+Require Import RV.Proofs.C16ExtTerm.
+
+Theorem C16_ext_tables_total : forall o r fuel, wf_xevent o -> tr_bounded r = true -> (xmatch_fuel o r <= fuel)%nat ->
+    exists b, xtime_range_match fuel o r = Some b /\ (b = true <-> xrfc_overlaps o r).
+Proof. exact ext_match_total. Qed.
+Print Assumptions C16_ext_tables_total.
+
+Theorem C16_ext_hull_total : forall o fuel, wf_xevent o -> (xhull_fuel o <= fuel)%nat ->
+    exists istart iend, xfind_time_range fuel o = Some (istart, iend) /\
+      (forall c, xvisited o c -> xle istart (c_s c) = true /\ xle (c_e c) iend = true) /\
+      (xlt MInf istart = true -> exists c, xvisited o c /\ xlt (c_s c) (c_e c) = true /\ c_s c = istart) /\
+      (xlt iend PInf = true -> exists c, xvisited o c /\ xlt (c_s c) (c_e c) = true /\ c_e c = iend).
+Proof. exact ext_hull_total. Qed.
+Print Assumptions C16_ext_hull_total.
+
+(* bounded rule (or none): the never-cancelling recording visitor terminates, un-cancelled, with exactly the instances *)
+Theorem C16_ext_visit_total : forall o fuel, wf_xevent o -> xe_infinite o = false -> (xhull_fuel o <= fuel)%nat ->
+    exists l, xvisit rec_all no_infinity fuel o [] = Some (l, false) /\ forall c, In c l <-> xvisited o c.
+Proof. exact ext_visit_total. Qed.
+Print Assumptions C16_ext_visit_total.
